@@ -7,3 +7,46 @@ Theorem C01_regular : forall m, wf_map m ->
     /\ forall i, (i < length (sm_sources m))%nat -> get_source_contents m' (Z.of_nat i) = get_source_contents m (Z.of_nat i).
 Proof. exact RoundtripProofs.C01_regular. Qed.
 Print Assumptions C01_regular.
+
+(* index and Hermes maps: any tree of decoded maps (regular / Hermes leaves, index sections to any depth) survives
+   write + read observationally: offsets, URLs and file of every index level, the conclusion of C01_regular for every
+   embedded map, and the identical Hermes function-map payload (hence identical function maps) *)
+From SM Require Import Model.Glb Model.Rewrite Proofs.DmapRoundtrip.
+Theorem C01_index_hermes : forall fuel d, wf_dmap fuel d ->
+  exists d', decode_common fuel (dm_as_raw fuel d) = Ok d' /\ obs_eq fuel d d'.
+Proof. exact DmapRoundtrip.C01_dmap. Qed.
+Print Assumptions C01_index_hermes.
+(* the hypotheses are satisfiable: a two-section index holding a regular map and a nested index with a Hermes map *)
+From SM Require Import Proofs.CodecCore Proofs.SettersProofs.
+Definition m_ex := mkSM (Some [111]) [mkTok 0 0 1 2 0 NONE false; mkTok 2 5 0 0 NONE NONE false] [[110]] None [[97]] None [Some [99]] [] None.
+Lemma m_ex_wf : wf_map m_ex.
+Proof.
+  unfold wf_map, m_ex. cbn [sm_tokens sm_sources sm_names sm_ignore].
+  split; [|split; [|split; [|split; [|split]]]].
+  - repeat constructor; cbn; lia.
+  - constructor; [|constructor; [|constructor]].
+    + constructor; cbn; try reflexivity; [right; lia|left; reflexivity].
+    + constructor; cbn; try reflexivity; left; reflexivity.
+  - cbn; unfold NONE, u32_max; lia.
+  - cbn; unfold NONE, u32_max; lia.
+  - constructor.
+  - reflexivity.
+Qed.
+Example C01_index_example :
+  wf_dmap 3 (DIndex (Some [102]) [((0, 0), None, Some (DRegular m_ex));
+                                  ((10, 4), Some [117], Some (DIndex None [((0, 2), None, Some (DHermes (mkH m_ex [None] (Some [None]))))]))]).
+Proof.
+  cbn [wf_dmap snd]. split.
+  - repeat constructor; cbn; lia.
+  - constructor; [exact m_ex_wf|]. constructor; [|constructor]. split.
+    + repeat constructor.
+    + constructor; [|constructor]. cbn [h_sm h_raw h_fmaps]. split; [exact m_ex_wf|]. exists [None]. split; reflexivity.
+Qed.
+
+(* last sentence of the property: serialising a map, decoding the result and serialising again reproduces the same
+   RawSourceMap value field by field -- mappings and rangeMappings strings included -- hence the same bytes *)
+From SM Require Import Proofs.Idempotent.
+Theorem C01_idempotent : forall m, wf_map m ->
+  exists m', decode_regular (sm_as_raw m) = Ok m' /\ sm_as_raw m' = sm_as_raw m.
+Proof. exact Idempotent.C01_idempotent. Qed.
+Print Assumptions C01_idempotent.
